@@ -819,6 +819,25 @@ func runCtor(c *Ctx) {
 		allocs []*ssa.Alloc
 	}
 	var ctors []ctor
+	delegatedCtor := func(r *ssa.Return) *ssa.Function {
+		for _, res := range r.Results {
+			if !ir.IsNamed(res.Type(), "Mast") && !ir.IsPtrToNamed(res.Type(), "Mast") {
+				continue
+			}
+			call, idx := fxCallOf(ir.ResolveCell(res))
+			if call == nil {
+				continue
+			}
+			h := ir.Callee(call.Call)
+			if h == nil || !fxOwnFunc(h) || idx >= h.Signature.Results().Len() {
+				continue
+			}
+			if t := h.Signature.Results().At(idx).Type(); ir.IsNamed(t, "Mast") || ir.IsPtrToNamed(t, "Mast") {
+				return h
+			}
+		}
+		return nil
+	}
 	for _, fn := range c.P.Funcs {
 		if fn.Parent() != nil || fn.Pkg == nil || fn.Pkg.Pkg.Path() != ir.MastPath {
 			continue
@@ -843,8 +862,18 @@ func runCtor(c *Ctx) {
 			}
 		}
 		if len(allocs) == 0 {
-			c.Undecided(fn, c.P.Pos(fn.Pos()), "constructed Mast", "function returns a Mast it does not build in a local; how its fields are initialised is not decided")
-			continue
+			// every success return hands on the Mast a helper built
+			all := true
+			rets := fxSuccessReturns(fn)
+			for _, ret := range rets {
+				if delegatedCtor(ret) == nil {
+					all = false
+				}
+			}
+			if !all || len(rets) == 0 {
+				c.Undecided(fn, c.P.Pos(fn.Pos()), "constructed Mast", "function returns a Mast it does not build in a local; how its fields are initialised is not decided")
+				continue
+			}
 		}
 		ctors = append(ctors, ctor{fn, allocs})
 	}
@@ -869,6 +898,10 @@ func runCtor(c *Ctx) {
 		}
 		return nil
 	}
+	isCtor := map[*ssa.Function]bool{}
+	for _, ct := range ctors {
+		isCtor[ct.fn] = true
+	}
 	for _, ct := range ctors {
 		rets := fxSuccessReturns(ct.fn)
 		for _, f := range fieldNames {
@@ -877,6 +910,11 @@ func runCtor(c *Ctx) {
 				a := returnedAlloc(r)
 				construct := "Mast." + f
 				if a == nil {
+					// result #i of a helper that is itself judged as a constructor
+					if h := delegatedCtor(r); h != nil && isCtor[h] {
+						c.OK(c.P.InstrPos(r), fmt.Sprintf("%s non-nil at return of %s", construct, ir.FuncName(ct.fn)), "the Mast is result of "+h.Name()+"(), judged there", true)
+						continue
+					}
 					c.Undecided(ct.fn, c.P.InstrPos(r), construct, "the returned Mast is not a local of the constructor")
 					continue
 				}
@@ -1377,11 +1415,13 @@ func decodedElems(v ssa.Value, env *fxEnv, depth int) []elemOrigin {
 	if n == nil {
 		return bad
 	}
-	t := step(n.Call.Args[0], "reflect.TypeOf")
+	// the type witness may be handed to a helper as an argument
+	targ, tenv := env.resolve(n.Call.Args[0])
+	t := step(targ, "reflect.TypeOf")
 	if t == nil {
 		return bad
 	}
-	tv, _ := env.resolve(t.Call.Args[0])
+	tv, _ := tenv.resolve(t.Call.Args[0])
 	b, zero, ok := fxFieldLoad(tv)
 	if !ok || b == nil || !ir.IsPtrToNamed(b.Type(), "Mast") {
 		return bad
@@ -2014,6 +2054,12 @@ func runFormats(c *Ctx) {
 		c.Undecided(nil, "-", "dispatch sites", fmt.Sprintf("found %d functions dispatching on Mast.nodeFormat; expected the marshal and the unmarshal closure", len(sites)))
 	}
 	want := currentFormats(c)
+	tableCond := map[ssa.Value]bool{}     // lookup comparisons against a table entry
+	lookupFns := map[*ssa.Function]bool{} // functions that look the format up in a table
+	// the table lookups first, so that the sites delegating to them see them
+	sort.SliceStable(sites, func(i, j int) bool {
+		return delegatesTo(sites[j].fn, sites[i].fn) && !delegatesTo(sites[i].fn, sites[j].fn)
+	})
 	for _, s := range sites {
 		fn := s.fn
 		// formats compared
@@ -2034,14 +2080,68 @@ func runFormats(c *Ctx) {
 				if isNF(pr[0]) {
 					if str, ok := fxStringOf(c.P, pr[1]); ok {
 						got = append(got, str)
+					} else if tf, field := tableFieldOf(pr[1]); tf != nil {
+						// a lookup in a table of {format, marshal, unmarshal} entries
+						entries, okT := parseCodecTable(tf)
+						if !okT {
+							c.Undecided(fn, c.P.InstrPos(iff), "format set", "Mast.nodeFormat is looked up in the table "+tf.Name()+"(), whose entries the rule cannot read")
+							continue
+						}
+						tableCond[iff.Cond] = true
+						for _, e := range entries {
+							if str, ok := fxStringOf(c.P, e[field]); ok {
+								got = append(got, str)
+							} else {
+								c.Undecided(fn, c.P.InstrPos(iff), "format set", "an entry of "+tf.Name()+"() has a format that does not resolve to a name")
+							}
+						}
+						checkCodecTable(c, tf, entries, field)
+						lookupFns[fn] = true
 					} else {
 						c.Undecided(fn, c.P.InstrPos(iff), "format set", "Mast.nodeFormat is compared with "+ir.Sym(pr[1])+", which does not resolve to a format name")
 					}
 				}
 			}
 		}
-		missing, extra := fxSetDiff(want, got)
 		pos := c.P.Pos(fn.Pos())
+		// a site without a branch of its own that asks a lookup function and
+		// hands its error on
+		if len(got) == 0 {
+			if lk := delegatedLookup(fn, lookupFns); lk != nil {
+				ei := ir.ErrorResultIndex(fn.Signature)
+				lei := ir.ErrorResultIndex(ir.Callee(lk.Call).Signature)
+				as := &fxAssume{decide: func(cond ssa.Value) (bool, bool) {
+					if v, tnn, ok := ir.NilTest(cond); ok {
+						if call, idx := fxCallOf(v); call == lk && idx == lei {
+							return tnn, true // the lookup failed
+						}
+					}
+					return false, false
+				}}
+				reach := as.reach(fn.Blocks[0])
+				bad := false
+				for _, ret := range ir.Returns(fn) {
+					if !reach[ret.Block()] {
+						continue
+					}
+					okErr := false
+					if ei >= 0 && ei < len(ret.Results) {
+						if call, idx := fxCallOf(ret.Results[ei]); (call == lk && idx == lei) || freshError(ret.Results[ei]) {
+							okErr = true
+						}
+					}
+					if !okErr {
+						bad = true
+						c.Violation(fn, c.P.InstrPos(ret), "unknown format", fmt.Sprintf("%s: when the format lookup %s fails this return is reached without handing the error on", ir.FuncName(fn), ir.Callee(lk.Call).Name()))
+					}
+				}
+				if !bad {
+					c.OK(pos, "format dispatch of "+ir.FuncName(fn), "delegated to "+ir.Callee(lk.Call).Name()+"(); its error is handed on", false)
+				}
+				continue
+			}
+		}
+		missing, extra := fxSetDiff(want, got)
 		for _, m := range missing {
 			c.Violation(fn, pos, "format "+m, fmt.Sprintf("%s in %s has no branch for node format %q, which the other dispatch sites accept", s.what, ir.FuncName(fn), m))
 		}
@@ -2052,7 +2152,14 @@ func runFormats(c *Ctx) {
 			c.OK(pos, "format set of "+ir.FuncName(fn), strings.Join(fxSorted(got), ", "), false)
 		}
 		// unknown → error
-		as := nodeFormatAssume(c, fn, "\x00unknown-format", nil)
+		as := nodeFormatAssume(c, fn, "\x00unknown-format", func(cond ssa.Value) (bool, bool) {
+			if tableCond[cond] { // no table entry matches an unknown format
+				if bin, ok := cond.(*ssa.BinOp); ok {
+					return bin.Op == token.NEQ, true
+				}
+			}
+			return false, false
+		})
 		reach := as.reach(fn.Blocks[0])
 		if open := as.open(reach); len(open) > 0 {
 			c.Undecided(fn, fxValPos(c.P, open[0], fn), "unknown format", "dispatch not decided: "+ir.Sym(open[0]))
@@ -2966,4 +3073,206 @@ func linearRemaining(v ssa.Value, buf ssa.Value, uv *ssa.Call) (linForm, bool) {
 		return linForm{x.cL + y.cL, x.cU + y.cU, x.c0 + y.c0}, true
 	}
 	return linForm{}, false
+}
+
+// ---------------------------------------------------------------------------
+// format tables
+
+// tableFieldOf: v reads field F of an element of the slice returned by a
+// parameterless static in-repo function T: returns T and F.
+func tableFieldOf(v ssa.Value) (*ssa.Function, string) {
+	v = fxStrip(v)
+	var elem ssa.Value
+	field := ""
+	switch x := v.(type) {
+	case *ssa.Field:
+		elem, field = x.X, fxFieldNameOf(x.X.Type(), x.Field)
+	case *ssa.UnOp:
+		fa, ok := x.X.(*ssa.FieldAddr)
+		if !ok || x.Op != token.MUL {
+			return nil, ""
+		}
+		elem, field = fa.X, fxFieldNameOf(fa.X.Type(), fa.Field)
+	default:
+		return nil, ""
+	}
+	elem = ir.ResolveCell(elem)
+	// the loop variable: a local struct holding a copy of the current element
+	if al, ok := elem.(*ssa.Alloc); ok && al.Referrers() != nil {
+		var st *ssa.Store
+		n := 0
+		for _, rf := range *al.Referrers() {
+			if s, ok := rf.(*ssa.Store); ok && s.Addr == ssa.Value(al) {
+				st = s
+				n++
+			}
+		}
+		if n != 1 {
+			return nil, ""
+		}
+		elem = st.Val
+	}
+	if u, ok := elem.(*ssa.UnOp); ok && u.Op == token.MUL {
+		elem = u.X
+	}
+	ia, ok := elem.(*ssa.IndexAddr)
+	if !ok {
+		return nil, ""
+	}
+	call, idx := fxCallOf(ir.ResolveCell(ia.X))
+	if call == nil || idx != 0 || len(call.Call.Args) != 0 {
+		return nil, ""
+	}
+	t := ir.Callee(call.Call)
+	if t == nil || !fxOwnFunc(t) {
+		return nil, ""
+	}
+	return t, field
+}
+
+// parseCodecTable reads the composite literal a table function returns: for
+// every element, the value stored into each field.
+func parseCodecTable(t *ssa.Function) ([]map[string]ssa.Value, bool) {
+	rets := ir.Returns(t)
+	if len(rets) != 1 || len(rets[0].Results) != 1 {
+		return nil, false
+	}
+	sl, ok := rets[0].Results[0].(*ssa.Slice)
+	if !ok || sl.Low != nil || sl.High != nil {
+		return nil, false
+	}
+	arr, ok := sl.X.(*ssa.Alloc)
+	if !ok {
+		return nil, false
+	}
+	at, ok := arr.Type().Underlying().(*types.Pointer).Elem().Underlying().(*types.Array)
+	if !ok {
+		return nil, false
+	}
+	entries := make([]map[string]ssa.Value, at.Len())
+	for i := range entries {
+		entries[i] = map[string]ssa.Value{}
+	}
+	for _, b := range t.Blocks {
+		for _, ins := range b.Instrs {
+			st, ok := ins.(*ssa.Store)
+			if !ok {
+				continue
+			}
+			fa, ok := st.Addr.(*ssa.FieldAddr)
+			if !ok {
+				continue
+			}
+			ia, ok := fa.X.(*ssa.IndexAddr)
+			if !ok || ia.X != ssa.Value(arr) {
+				continue
+			}
+			k := fxConst(ia.Index)
+			if k == nil {
+				return nil, false
+			}
+			i, exact := constant.Int64Val(k)
+			if !exact || i < 0 || int(i) >= len(entries) {
+				return nil, false
+			}
+			entries[i][fxFieldNameOf(fa.X.Type(), fa.Field)] = st.Val
+		}
+	}
+	for _, e := range entries {
+		if len(e) == 0 {
+			return nil, false
+		}
+	}
+	return entries, true
+}
+
+// checkCodecTable: every entry pairs its format with the functions of that
+// format: the binary format's marshal function reaches the binary encoder and
+// its unmarshal function the binary decoder; the v1 format's reach neither.
+func checkCodecTable(c *Ctx, t *ssa.Function, entries []map[string]ssa.Value, formatField string) {
+	enc, dec := c.P.MastFunc("marshalMastNode"), c.P.MastFunc("unmarshalMastNode")
+	cur := currentFormats(c)
+	for i, e := range entries {
+		format, ok := fxStringOf(c.P, e[formatField])
+		if !ok {
+			continue
+		}
+		binary := format == cur[1]
+		for name, v := range e {
+			if name == formatField {
+				continue
+			}
+			f := fxRealFunc(ir.ResolveCell(v))
+			construct := fmt.Sprintf("table entry %q.%s", format, name)
+			pos := fxValPos(c.P, v, t)
+			if f == nil {
+				c.Undecided(t, pos, construct, "the entry's "+name+" is not a function the rule can resolve")
+				continue
+			}
+			reach := staticReach(f)
+			// is it an encoder or a decoder? by what the sibling entries' functions reach
+			var target *ssa.Function
+			role := ""
+			for _, e2 := range entries {
+				if g := fxRealFunc(ir.ResolveCell(e2[name])); g != nil {
+					r2 := staticReach(g)
+					if enc != nil && r2[enc] {
+						target, role = enc, "encoder"
+					}
+					if dec != nil && r2[dec] {
+						target, role = dec, "decoder"
+					}
+				}
+			}
+			if target == nil {
+				c.Undecided(t, pos, construct, "no entry's "+name+" reaches the binary encoder or decoder: the role of this column is unknown")
+				continue
+			}
+			if reach[target] == binary {
+				c.OK(pos, construct, map[bool]string{true: "reaches", false: "does not reach"}[binary]+" the binary "+role+" ("+f.Name()+")", false)
+			} else if binary {
+				c.Violation(t, pos, construct, fmt.Sprintf("entry %d pairs node format %q with %s, which never reaches the binary %s: nodes of that format are written/read in the other format", i, format, f.Name(), role))
+			} else {
+				c.Violation(t, pos, construct, fmt.Sprintf("entry %d pairs node format %q with %s, which uses the binary %s: nodes of that format are written/read in the other format", i, format, f.Name(), role))
+			}
+		}
+	}
+}
+
+// delegatesTo: a statically calls b.
+func delegatesTo(a, b *ssa.Function) bool {
+	for _, cl := range staticCallsIn(a) {
+		if ir.Callee(cl.Call) == b {
+			return true
+		}
+	}
+	return false
+}
+
+// delegatedLookup: the call in fn of one of the table-lookup functions.
+func delegatedLookup(fn *ssa.Function, lookups map[*ssa.Function]bool) *ssa.Call {
+	for _, cl := range staticCallsIn(fn) {
+		if lookups[ir.Callee(cl.Call)] {
+			return cl
+		}
+	}
+	return nil
+}
+
+// staticReach: the functions fn reaches through statically resolved calls
+// only (callbacks are not followed).
+func staticReach(fn *ssa.Function) map[*ssa.Function]bool {
+	seen := map[*ssa.Function]bool{fn: true}
+	work := []*ssa.Function{fn}
+	for len(work) > 0 {
+		f := work[len(work)-1]
+		work = work[:len(work)-1]
+		for _, cl := range staticCallsIn(f) {
+			if g := ir.Callee(cl.Call); g != nil && g.Blocks != nil && !seen[g] {
+				seen[g] = true
+				work = append(work, g)
+			}
+		}
+	}
+	return seen
 }
